@@ -91,6 +91,7 @@ PROBES = collections.OrderedDict([
                                      (b'b.ninja', b'x = a$^b\n')])),
     ('required-version-scope-2', _scn([(b'build.ninja', b'subninja a.ninja\nsubninja b.ninja\n'),
                                        (b'a.ninja', b'ninja_required_version = 1.14\n'), (b'b.ninja', b'x = a$^b\n')])),
+    ('rule-level-dyndep-gets-own-scope', _scn([(b'build.ninja', b'description = FILEDESC\nrule r\n  command = c\n  description = RULEDESC\n  dyndep = dd\nbuild a: r | dd\nbuild b: r | dd\n  z = 1\n')])),
     ('error-line-of-next-token', _scn([(b'build.ninja', b'rule r\n  command = c\nbuild a: r\nbuild a: r\n  description = second\n# comment\n# comment\nbuild b: r\n')])),
 ])
 
